@@ -363,7 +363,10 @@ fn add(left: Value, right: Value) -> Result<Value> {
             .checked_add(right)
             .map(Value::Decimal)
             .ok_or_else(|| Error::value_out_of_bounds(Value::Decimal(left), "add")),
-        (Value::DateTime(left), Value::Duration(right)) => Ok(Value::DateTime(left + right)),
+        (Value::DateTime(left), Value::Duration(right)) => left
+            .checked_add_signed(right)
+            .map(Value::DateTime)
+            .ok_or_else(|| Error::value_out_of_bounds(Value::DateTime(left), "add")),
 
         (Value::None, _) | (_, Value::None) => Ok(Value::None),
         _ => Err(Error::InvalidType),
@@ -382,8 +385,14 @@ fn sub(left: Value, right: Value) -> Result<Value> {
             .map(Value::Decimal)
             .ok_or_else(|| Error::value_out_of_bounds(Value::Decimal(left), "sub")),
         (Value::DateTime(left), Value::DateTime(right)) => Ok(Value::Duration(left - right)),
-        (Value::DateTime(left), Value::Duration(right)) => Ok(Value::DateTime(left - right)),
-        (Value::Duration(left), Value::Duration(right)) => Ok(Value::Duration(left - right)),
+        (Value::DateTime(left), Value::Duration(right)) => left
+            .checked_sub_signed(right)
+            .map(Value::DateTime)
+            .ok_or_else(|| Error::value_out_of_bounds(Value::DateTime(left), "sub")),
+        (Value::Duration(left), Value::Duration(right)) => left
+            .checked_sub(&right)
+            .map(Value::Duration)
+            .ok_or_else(|| Error::value_out_of_bounds(Value::Duration(left), "sub")),
 
         (Value::None, _) | (_, Value::None) => Ok(Value::None),
         _ => Err(Error::InvalidType),
